@@ -458,7 +458,7 @@ pub fn run(args: Args) -> ! {
             reported += 1;
         };
         // tags compared for equality across configurations of the same class
-        for tag in ["P", "S", "R", "TP", "D", "B", "TD", "TB", "TO", "TR", "TM", "E", "EB", "EP"] {
+        for tag in ["P", "S", "R", "TP", "D", "B", "TD", "TB", "TO", "TR", "TM", "TQ", "E", "EB", "EP"] {
             let mut groups: BTreeMap<String, Vec<(&str, &String)>> = BTreeMap::new();
             for (name, m) in &tables {
                 if let Some(v) = m.get(&(i, tag.to_string())) {
@@ -543,6 +543,10 @@ pub fn run(args: Args) -> ! {
                         }
                     }
                 }
+            }
+            Expect::Tree(_) if tables.iter().any(|(_, m)| m.get(&(i, "TQ".to_string())).map(|v| v == "false").unwrap_or(false)) => {
+                let (name, _) = tables.iter().find(|(_, m)| m.get(&(i, "TQ".to_string())).map(|v| v == "false").unwrap_or(false)).unwrap();
+                fail(&mut rep, format!("item {i}: configuration `{name}`: two toml::Value trees with the same entries, filled in opposite orders, do not compare equal\n{}", lines[i].chars().take(300).collect::<String>()));
             }
             Expect::Tree(tree) => {
                 let mut want = String::new();
